@@ -9,7 +9,7 @@ from . import model as M
 
 FLOATS = [1.0, -1.5, 2.0, 2.5, 3.0, 0.5, -2.0, 4.0, 10.0, 0.0, 0.3, 0.7]
 PARAM_KEYS = ["factor", "addend", "divisor", "value", "w", "p", "q", "path", "seed", "k", "tag"]
-OTHER_KEYS = ["a", "b", "c", "k1", "out", "t_values", "w_key", "ps_a", "seq"]
+OTHER_KEYS = ["a", "b", "c", "k1", "out", "t_values", "w_key", "ps_a", "seq", "long_key"]
 ALL_KEYS = PARAM_KEYS + OTHER_KEYS
 PATHS = ["out_a.txt", "out_b.txt"]
 
@@ -35,6 +35,8 @@ def value_for(name: str, bad: float = 0.06):
         good = st.one_of(*([floats] * 12), st.none())
     elif name == "opts":
         good = st.fixed_dictionaries({"k": floats})
+    elif name == "long_key":  # a value whose repr is far longer than any display limit; variants differ only at the end
+        good = st.sampled_from(FLOATS).map(lambda x: [1.0] * 80 + [x])
     else:
         good = floats
     if bad <= 0:
@@ -45,7 +47,7 @@ def value_for(name: str, bad: float = 0.06):
 SOURCES = ["FloatValueDataSource", "FloatValueDataSourceWithDefault", "FloatDataSource", "FloatPayloadSource",
            "VPayloadSourceWithKeys"]
 FLOAT_OPS = ["FloatMultiplyOperation", "FloatMultiplyOperationWithDefault", "FloatAddOperation", "FloatSquareOperation",
-             "FloatSqrtOperation", "FloatDivideOperation", "VCtxWriteOp", "VInPlaceScaleOp"]
+             "FloatSqrtOperation", "FloatDivideOperation", "VCtxWriteOp", "VInPlaceScaleOp", "VLongTailOp"]
 RARE_OPS = ["VUndeclaredWriteOp", "VRaiseOp"]
 PROBES = ["FloatBasicProbe", "FloatCollectValueProbe", "VEchoProbe", "VNoneDefaultProbe"]
 SINKS = ["FloatDataSink", "FloatPayloadSink", "FloatMockDataSink", "FloatTxtFileSaver"]
@@ -58,9 +60,12 @@ SWEEPABLE = {"source": ["FloatValueDataSource", "FloatValueDataSourceWithDefault
              "probe": ["VEchoProbe"]}
 
 EXPRS1 = ["{v}", "2 * {v}", "{v} + 1.0", "-{v}", "abs({v}) + 0.5", "{v} * {v}", "max({v}, 1.0)", "{v} / 2", "float({v})",
-          "{v} + (0.1 + 0.2)", "({v} + 0.1) + 0.2", "0.1 + ({v} + 0.2)", "({v} * 0.1) * 3.0", "{v} * (0.1 * 3.0)"]
+          "{v} + (0.1 + 0.2)", "({v} + 0.1) + 0.2", "0.1 + ({v} + 0.2)", "({v} * 0.1) * 3.0", "{v} * (0.1 * 3.0)",
+          # + / * chains inside call arguments, comparisons and conditional branches
+          "max({v} + 0.5, 1.0)", "abs(0.5 + {v} * 2.0)", "min(1.0 + {v}, {v} * 2.0)", "{v} if 0.5 + {v} > 1.0 else 2.0 * {v}"]
 EXPRS2 = ["{v} + {u}", "{v} * {u}", "{v} - {u}", "{u} * 2 + {v}", "min({v}, {u})", "{v} if {v} > {u} else {u}",
-          "({v} + {u}) * 0.5", "{v} + {u} + 0.5", "0.5 + ({v} + {u})", "{v} * {u} * 2.0", "2.0 * ({u} * {v})", "({v} + 1.0) + ({u} + 2.0)", "2.0 * {v} + {u} * 3.0", "({v} + 1.0) * (2.0 + {u})", "{v} * {u} + 1.0", "({v} + {u}) * 2.0"]
+          "({v} + {u}) * 0.5", "{v} + {u} + 0.5", "0.5 + ({v} + {u})", "{v} * {u} * 2.0", "2.0 * ({u} * {v})", "({v} + 1.0) + ({u} + 2.0)", "2.0 * {v} + {u} * 3.0", "({v} + 1.0) * (2.0 + {u})", "{v} * {u} + 1.0", "({v} + {u}) * 2.0",
+          "max({v} + {u}, 0.5)", "abs({u} * {v})", "{v} if {v} + {u} > 1.0 else {u}", "min({u} * {v}, {v} + {u})", "2.0 * max({v} + {u}, 0.5)"]
 
 
 @st.composite
@@ -86,7 +91,9 @@ def sweep_spec(draw, wrapped: str, rich: bool = False):
     nvars = draw(st.sampled_from([1, 1, 2, 2, 3] if rich else [1, 1, 2]))
     names = list(draw(st.permutations(["t", "s", "r"]))[:nvars])
     if rich:  # user-chosen names that coincide with keys the framework uses inside its own metadata blocks
-        odd = draw(st.sampled_from([None] * 6 + ["expr", "preprocessor_view", "sig", "values"]))
+        # ... or with a parameter of the wrapped processor (which the sweep may or may not compute)
+        odd = draw(st.sampled_from([None] * 6 + ["expr", "preprocessor_view", "sig", "values"] +
+                                   [n for n, _ in base["params"] if n not in ("marker", "kind", "opts")] * 2))
         if odd:
             names[0] = odd
     vars_: Dict[str, Any] = {}
